@@ -100,20 +100,25 @@ def ob_construct(cname):
 
 
 def check_params(cls, C, d):
+    # whatever Config(**d) does - accept, ValueError/ValidationError, or a validator that crashes on the value (e.g.
+    # Fox's `0 < pp < 1` on pp=None) - set_config_parameters(d) must do the same
     try:
         ref = C(**d)
         ref_err = None
-    except ValueError as e:
+    except Exception as e:
         ref, ref_err = None, e
     o = cls()
     try:
         o.set_config_parameters(dict(d))
         got_err = None
-    except ValueError as e:
+    except Exception as e:
         got_err = e
-    if (ref_err is None) != (got_err is None):
+
+    def kind(e):
+        return None if e is None else ("ValueError" if isinstance(e, ValueError) else type(e).__name__)
+    if kind(ref_err) != kind(got_err):
         return Failure("set_config_parameters-and-the-config-class-disagree-on-validity", params=d,
-                       config_class_raises=ref_err is not None, set_config_parameters_raises=got_err is not None)
+                       config_class=kind(ref_err), set_config_parameters=kind(got_err))
     if ref_err is not None:
         return OK
     if not cfg_equal(o.configuration, ref):
@@ -151,6 +156,18 @@ def ob_list_lengths(cname):
                     r = check_params(cls, C, d)
                     if r is not OK:
                         return r
+            # None is a value, not "unset": every field whose annotation admits None (fitness_error, early_stopping, ...)
+            import types
+            import typing
+            for name, fld in C.model_fields.items():
+                ann = fld.annotation
+                if typing.get_origin(ann) in (typing.Union, types.UnionType) and type(None) in typing.get_args(ann):
+                    r = check_params(cls, C, dict(kw, **{name: None}))
+                    if r is not OK:
+                        return r
+            r = check_params(cls, C, dict(kw, early_stopping=M.EarlyStopping(patience=2, min_delta=0.5)))
+            if r is not OK:
+                return r
             # missing / extra keys
             for k in list(kw)[:3]:
                 d = dict(kw)
